@@ -15,7 +15,8 @@ pub fn run(args: &[String]) -> i32 {
         let (cfg, rest): (Value, &[Value]) = if ops.first().map(|o| o["op"] == "Config").unwrap_or(false) { (ops[0].clone(), &ops[1..]) } else { (json!({}), &ops[..]) };
         tr.ev(json!({"ev": "Reset", "run": bi}));
         let sc = Scenario { ops: rest, fill_busy: cfg["fill_busy"].as_u64().unwrap_or(0) as usize, fill_idle: cfg["fill_idle"].as_u64().unwrap_or(0) as usize, fill_expired: cfg["fill_expired"].as_u64().unwrap_or(0) as usize, with_fabric: cfg["fabric"].as_bool().unwrap_or(false), second_fabric: cfg["second_fabric"].as_bool().unwrap_or(false),
-                            foreign2: cfg["foreign2"].as_bool().unwrap_or(false), wrong_ipk2: cfg["wrong_ipk2"].as_bool().unwrap_or(false), stall_ms: cfg["stall_ms"].as_u64().unwrap_or(0) };
+                            foreign2: cfg["foreign2"].as_bool().unwrap_or(false), wrong_ipk2: cfg["wrong_ipk2"].as_bool().unwrap_or(false), stall_ms: cfg["stall_ms"].as_u64().unwrap_or(0),
+                            validity2: match cfg["validity2"].as_str() { Some("expired") => "expired", Some("notyet") => "notyet", _ => "" } };
         let end = run_scenario(&sc, &mut tr);
         *ends.entry(format!("{:?}", end)).or_default() += 1;
     }
